@@ -188,6 +188,10 @@ impl Sub for Validators {
         // serde_json cannot hold (u128::MAX, i128::MIN, a map keyed by tuples): the parse may then fail for that reason,
         // but it may not succeed with the validator left out
         other if c.seed[5] % 4 == 0 && id % 2 == 1 => ClaimSpec::Native(other.to_string(), NativeVal::Unholdable(c.seed[6])),
+        // or it is a caller-defined claim type whose serialised form is not {key: value}: its member carries another name,
+        // there are several members, or none - the key it is registered under is what `get_key()` says
+        other if c.seed[5] % 4 == 1 && id % 2 == 1 => ClaimSpec::Shaped(other.to_string(), json!({ "member-under-another-name": 1, "sub": "x", "list": [other] })),
+        other if c.seed[5] % 4 == 2 && id % 2 == 1 => ClaimSpec::Shaped(other.to_string(), if c.seed[6] % 2 == 0 { json!({}) } else { json!({ other: 1, "sibling": 2 }) }),
         other if id % 2 == 0 => ClaimSpec::Custom(other.to_string(), json!(1)),
         other => ClaimSpec::Any(other.to_string(), Value::Null),
       })
@@ -297,7 +301,7 @@ impl Sub for Validators {
       } else if c.via_extend && id % 3 == 2 && c.layer == Layer::Generic {
         // ... and the same key is then listed once more in a bulk registration of expected claims, followed by the validator
         // again: one key, one validator, whatever the order and number of registrations
-        let _ = parser.extend_checks(&[(k.clone(), Value::Null)]);
+        let _ = if c.seed[7] % 2 == 0 { parser.extend_checks(&[(k.clone(), Value::Null)]) } else { parser.extend_checks_verbatim(&[(k.clone(), json!({ "boxed-claim-has-another-name": 1 }))]) };
         let _ = parser.extend_validators(&[(k.clone(), VALIDATORS[*id])]);
         cl.tag("key-registered-again-through-extend_check_claims");
       }
